@@ -222,7 +222,7 @@ func (g *Gen) recvCase(ok [rcN]bool, module bool, usedPool *[][2]uint64) {
 	from := g.acct[submitter]
 	caller := make([]byte, 32)
 	if ok[rcCaller] {
-		switch g.pick(4) {
+		switch g.pickv(4) {
 		case 0, 1:
 			caller = pad32(g.acctRaw[submitter])
 		case 2:
@@ -231,7 +231,7 @@ func (g *Gen) recvCase(ok [rcN]bool, module bool, usedPool *[][2]uint64) {
 			copy(caller[:12], g.randBytes(12))
 		}
 	} else {
-		switch g.pick(5) {
+		switch g.pickv(5) {
 		case 0:
 			caller = pad32(g.acctRaw[(submitter+1)%len(g.acct)])
 		case 1:
@@ -250,11 +250,11 @@ func (g *Gen) recvCase(ok [rcN]bool, module bool, usedPool *[][2]uint64) {
 	}
 	dest := uint32(4)
 	if !ok[rcDest] {
-		dest = []uint32{0, 1, 3, 5, 0xffffffff}[g.pick(5)]
+		dest = []uint32{0, 1, 3, 5, 0xffffffff}[g.pickv(5)]
 	}
 	version := uint32(0)
 	if !ok[rcVersion] {
-		version = []uint32{1, 2, 0xffffffff}[g.pick(3)]
+		version = []uint32{1, 2, 0xffffffff}[g.pickv(3)]
 	}
 	var msg []byte
 	faults := "-"
@@ -262,19 +262,19 @@ func (g *Gen) recvCase(ok [rcN]bool, module bool, usedPool *[][2]uint64) {
 	if module {
 		bver := uint32(0)
 		if !ok[rcBodyVersion] {
-			bver = 1 + uint32(g.pick(3))
+			bver = 1 + uint32(g.pickv(3))
 		}
 		tok := token(0)
 		if !ok[rcPair] {
-			tok = token(5 + g.pick(3))
+			tok = token(5 + g.pickv(3))
 		}
 		sender := messengerAddr(src)
-		if !ok[rcSender] && g.chance(0.2) {
+		if !ok[rcSender] && (g.forceVariant == 5 || (g.forceVariant < 0 && g.chance(0.2))) {
 			// no messenger registered for the source domain at all (restored after the receive)
 			noMessenger = true
 			g.tx("RemoveRemoteTokenMessenger", newKV().set("from", hs(g.role("owner"))).set("domain", fmt.Sprint(src)))
 		} else if !ok[rcSender] {
-			switch g.pick(5) {
+			switch g.pickv(5) {
 			case 0:
 				sender = g.rand32()
 			case 1: // differs only in the high 12 bytes
@@ -292,7 +292,7 @@ func (g *Gen) recvCase(ok [rcN]bool, module bool, usedPool *[][2]uint64) {
 		}
 		amt := bigPool(g)
 		if !ok[rcMint] {
-			if g.chance(0.5) {
+			if g.pickv(2) == 0 {
 				amt = big.NewInt(0)
 			} else {
 				faults = "1"
@@ -303,7 +303,7 @@ func (g *Gen) recvCase(ok [rcN]bool, module bool, usedPool *[][2]uint64) {
 			copy(body[36:48], g.randBytes(12)) // non-zero high bytes of the mint recipient
 		}
 		if !ok[rcBodyLen] {
-			switch g.pick(4) {
+			switch g.pickv(4) {
 			case 0:
 				body = body[:131]
 			case 1:
@@ -329,7 +329,7 @@ func (g *Gen) recvCase(ok [rcN]bool, module bool, usedPool *[][2]uint64) {
 	o := attOpts{legacyV: g.pick(3)}
 	if !ok[rcAttValid] {
 		muts := []string{"trunc1", "trunc65", "pad1", "pad65", "dupLast", "highSTwin", "reverse", "badV", "zeroR", "flipBit", "other", "unknown", "mirrorKey"}
-		m := muts[g.pick(len(muts))]
+		m := muts[g.pickv(len(muts))]
 		switch m {
 		case "other":
 			o.overMsg = append(append([]byte{}, msg...), 7)
@@ -404,13 +404,33 @@ func scnRecvMatrix(g *Gen, budget int, arg string) {
 		g.recvCase(allOK, true, &used)
 		g.recvCase(allOK, false, &used)
 		if first {
-			// all singletons and all pairs, module-addressed and not
-			for i := 0; i < rcN; i++ {
-				c := allOK
-				c[i] = false
-				g.recvCase(c, true, &used)
-				g.recvCase(c, false, &used)
+			// deterministic preamble (whatever the seed): the pair (source domain, 0) received and resubmitted -- its stored
+			// value is empty --, then every variant of every single failed condition, variant-major
+			for _, d := range []uint32{0, 1} {
+				zero := g.inboundBurn(d, 0, big.NewInt(9), 0)
+				kvz := g.opReceive(g.anyAcct(), zero, attOpts{})
+				if strings.HasPrefix(g.tx("ReceiveMessage", kvz), "out=ok") {
+					used = append(used, [2]uint64{uint64(d), 0})
+				}
+				g.tx("ReceiveMessage", kvz)
+				other := buildMessage(0, d, 4, 0, g.rand32(), g.otherRecipient(), make([]byte, 32), nil)
+				g.tx("ReceiveMessage", g.opReceive(g.anyAcct(), other, attOpts{}))
 			}
+			for v := 0; v < 13; v++ {
+				g.forceVariant = v
+				for i := 0; i < rcN; i++ {
+					if v >= 6 && i != rcAttValid {
+						continue // only the attestation mutations have more than six variants
+					}
+					c := allOK
+					c[i] = false
+					g.recvCase(c, true, &used)
+					if v < 2 {
+						g.recvCase(c, false, &used)
+					}
+				}
+			}
+			g.forceVariant = -1
 			for i := 0; i < rcN; i++ {
 				for j := i + 1; j < rcN; j++ {
 					c := allOK
@@ -467,7 +487,7 @@ func (g *Gen) depCase(ok [dcN]bool, withCaller bool, limit *big.Int) {
 	limitSpelling := []string{"uusdc", "UUSDC", "uUsDC"}[g.pick(3)]
 	g.tx("SetMaxBurnAmountPerMessage", newKV().set("from", hs(tc)).set("localToken", hs(limitSpelling)).set("amount", limit.String()))
 	if !ok[dcBodyFits] {
-		g.tx("UpdateMaxMessageBodySize", newKV().set("from", hs(owner)).set("size", fmt.Sprint([]int{0, 1, 131}[g.pick(3)])))
+		g.tx("UpdateMaxMessageBodySize", newKV().set("from", hs(owner)).set("size", fmt.Sprint([]int{0, 1, 131}[g.pickv(3)])))
 	} else {
 		g.tx("UpdateMaxMessageBodySize", newKV().set("from", hs(owner)).set("size", fmt.Sprint(append([]uint64{132, 133, 8000}, u64Edges...)[g.pick(3+len(u64Edges))])))
 	}
@@ -485,7 +505,7 @@ func (g *Gen) depCase(ok [dcN]bool, withCaller bool, limit *big.Int) {
 	one := big.NewInt(1)
 	switch {
 	case !ok[dcAmountPos]:
-		amount = []string{"0", "-1", "-", "-1000"}[g.pick(4)]
+		amount = []string{"0", "-1", "-", "-1000"}[g.pickv(4)]
 	case !ok[dcWithinLimit]:
 		a := new(big.Int).Add(limit, one)
 		if a.Sign() <= 0 {
@@ -497,7 +517,7 @@ func (g *Gen) depCase(ok [dcN]bool, withCaller bool, limit *big.Int) {
 		amount = a.String()
 	default:
 		// within the limit: limit itself, limit-1, 1, or a random smaller value
-		switch g.pick(4) {
+		switch g.pickv(4) {
 		case 0:
 			amount = limit.String()
 		case 1:
@@ -535,15 +555,15 @@ func (g *Gen) depCase(ok [dcN]bool, withCaller bool, limit *big.Int) {
 	}
 	tokenS := mintDenom
 	if !ok[dcToken] {
-		tokenS = []string{"other", "UUSDC", "uUsDC", "uuſdc", "", "uusd"}[g.pick(6)]
+		tokenS = []string{"other", "UUSDC", "uUsDC", "uuſdc", "", "uusd"}[g.pickv(6)]
 	}
 	rcp := g.rand32()
 	if !ok[dcRecipient] {
-		rcp = [][]byte{make([]byte, 32), {}, g.randBytes(31), g.randBytes(33), make([]byte, 31)}[g.pick(5)]
+		rcp = [][]byte{make([]byte, 32), {}, g.randBytes(31), g.randBytes(33), make([]byte, 31)}[g.pickv(5)]
 	}
 	dest := []uint32{0, 1, 3}[g.pick(3)]
 	if !ok[dcMessenger] {
-		if g.chance(0.5) {
+		if g.pickv(2) == 0 {
 			dest = 77 // nothing registered
 		} else {
 			dest = 6 // a zero messenger registered below
@@ -556,7 +576,7 @@ func (g *Gen) depCase(ok [dcN]bool, withCaller bool, limit *big.Int) {
 		ty = "DepositForBurnWithCaller"
 		c := g.rand32()
 		if !ok[dcCaller] {
-			c = [][]byte{make([]byte, 32), {}, g.randBytes(31), g.randBytes(33)}[g.pick(4)]
+			c = [][]byte{make([]byte, 32), {}, g.randBytes(31), g.randBytes(33), g.randBytes(1), make([]byte, 20)}[g.pickv(6)]
 		}
 		kv.set("caller", hx(c))
 	}
@@ -595,14 +615,28 @@ func scnDepMatrix(g *Gen, budget int, arg string) {
 		g.depCase(allOK, true, big.NewInt(0))
 		g.depCase(allOK, false, big.NewInt(-5))
 		if first {
-			for i := 0; i < dcN; i++ {
-				c := allOK
-				c[i] = false
-				for _, l := range limits[:2] {
-					g.depCase(c, false, l)
-					g.depCase(c, true, l)
+			// deterministic preamble (whatever the seed): every variant of every single failed precondition, both handlers,
+			// variant-major so that a short budget still meets every condition once
+			for v := 0; v < 6; v++ {
+				g.forceVariant = v
+				for i := 0; i < dcN; i++ {
+					c := allOK
+					c[i] = false
+					g.depCase(c, v%2 == 0, limits[v%2])
+					if i == dcCaller {
+						g.depCase(c, true, limits[v%2])
+					}
 				}
 			}
+			g.forceVariant = -1
+			// ... and amounts at the width boundaries, exactly at a limit of the same size and without any limit
+			for _, sh := range []uint{63, 64, 128} {
+				l := new(big.Int).Lsh(big.NewInt(1), sh)
+				l.Add(l, big.NewInt(5))
+				g.forceVariant = 0 // "amount = limit"
+				g.depCase(allOK, sh == 64, l)
+			}
+			g.forceVariant = -1
 			for i := 0; i < dcN; i++ {
 				for j := i + 1; j < dcN; j++ {
 					c := allOK
@@ -1671,7 +1705,7 @@ func scnBulk(g *Gen, budget int, arg string) {
 			sp.pairs = append(sp.pairs, fmt.Sprintf("%d:%x:%s", 7+g.pick(3), g.rand32(), hs(fmt.Sprintf("tok%d", i))))
 		}
 		seen := map[string]bool{}
-		for i := 0; i < size(3); i++ {
+		for want := size(3); len(sp.used) < want; {
 			u := fmt.Sprintf("%d:%d", g.pick(2), g.pick(4*n))
 			if !seen[u] {
 				seen[u] = true
